@@ -263,3 +263,32 @@ class Ctx:
         total = quick if self.quick else thorough
         base, rem = divmod(total, self.nshards)
         return base + (1 if self.shard < rem else 0)
+
+
+def decanon(c):
+    """Inverse of canon() for dict/list/tuple/scalar values (Mapfile dicts are rebuilt as CaseInsensitiveOrderedDict)."""
+    from mappyfile.ordereddict import CaseInsensitiveOrderedDict as CI
+    from collections import OrderedDict
+
+    t = c[0]
+    if t == "N":
+        return None
+    if t in ("b", "i", "s"):
+        return c[1]
+    if t == "f":
+        return float(c[1])
+    if t == "L":
+        return [decanon(x) for x in c[1]]
+    if t == "T":
+        return tuple(decanon(x) for x in c[1])
+    if t.startswith("D:"):
+        if t == "D:dict":
+            d = {}
+        elif t == "D:OrderedDict":
+            d = OrderedDict()
+        else:
+            d = CI(CI) if c[1] and c[1][0] else CI()
+        for k, v in c[2]:
+            d[decanon(k)] = decanon(v)
+        return d
+    raise ValueError(c)
